@@ -41,6 +41,7 @@ class FakeSocket(object):
         self.on_send = None           # callable(sock, nbytes)
         self.on_recv = None           # callable(sock, nbytes)
         self.on_close = None
+        self.xform = None
         self.send_calls = 0
         self.eagain_count = 0
         self.sockopts = []
@@ -100,8 +101,13 @@ class FakeSocket(object):
             self.eagain_count += 1
             raise BlockingIOError(11, 'Resource temporarily unavailable')
         n = len(data) if quota is None else min(len(data), quota)
-        self.inflight += data[:n]
-        self.sent_log += data[:n]
+        chunk = data[:n]
+        if self.xform is not None:
+            # what this end's implementation puts on the wire differs from what the code under test wrote
+            # (used to play a peer that sets reserved bits)
+            chunk = self.xform(len(self.sent_log), chunk)
+        self.inflight += chunk
+        self.sent_log += chunk
         if self.auto_deliver:
             self.deliver()
         if self.on_send:
